@@ -16,7 +16,7 @@
 
    Answer to the question the property poses about that race: "the values reported for that window
    add up to the values recorded in it" is true when summed over ALL reports of the window
-   (C19_conservation_by_key / _partial: the sums range over every Scan of the run), and false for
+   (C19_conservation_by_key / C19_conservation: the sums range over every Scan of the run), and false for
    "the" report of a window taken singly — a window can be reported more than once
    (C19_race_second_report).  Nothing inserted is ever lost or counted twice:
    inserted = reported + still open.  What is still open when the process stops is never
@@ -42,40 +42,36 @@ Theorem C19_conservation_by_key : forall w evs st outs bt k,
 Proof. exact conservation_by_key. Qed.
 Print Assumptions C19_conservation_by_key.
 
-(* The property speaks of statistics (component, name, type, unit), not of keys.  FULL statement:
+(* The aggregate key (computeAggregateKey after fix 7beb2ab: length-prefixed fields) is injective
+   in (component, name, type, unit), for ALL byte strings: two different statistics never share an
+   aggregate.  (Finding F9 — the former bare concatenation merged ("ab","c") with ("a","bc") — is
+   repaired; corpus/AGG/f9_identity_collision.json stays as a regression case.) *)
+Theorem C19_key_injective : forall s1 s2, akey s1 = akey s2 -> sident s1 = sident s2.
+Proof. exact akey_injective. Qed.
+Print Assumptions C19_key_injective.
 
-     Theorem C19_conservation : forall w evs st outs id bt,
-       arun w [] evs = (st, outs, false) ->
-       rep_sum_id id bt outs + open_sum_id id bt st = ins_sum_id w id bt evs.
+(* Conservation per statistic identity (component, name, type, unit) and window, FULL statement:
+   every event list (well-formed or not, races included), summed over ALL reports of the window. *)
+Theorem C19_conservation : forall w evs st outs id bt,
+  arun w [] evs = (st, outs, false) ->
+  rep_sum_id id bt outs + open_sum_id id bt st = ins_sum_id w id bt evs.
+Proof. exact conservation_by_identity. Qed.
+Print Assumptions C19_conservation.
 
-   It is FALSE on the faithful model and on the real code (finding F9): the aggregate key is the
-   bare concatenation component ++ name ++ type ++ unit, so ("ab","c",..) and ("a","bc",..) share one
-   aggregate, which carries the identity of whichever came first. *)
+(* the former F9 witness, now conserved: two identities, two aggregates, two reports *)
 Definition f9_a : stat := mkStat "ab" "c" "count" "count" 5 1699999980000000001.
 Definition f9_b : stat := mkStat "a" "bc" "count" "count" 7 1699999980000000002.
 Definition f9_evs : list ev :=
   [ Check f9_a 1699999980000000005; Insert f9_a; Check f9_b 1699999980000000005; Insert f9_b;
     Scan 1700000041000000006 ].
-
-Theorem C19_identity_collision_refuted :
+Example C19_former_collision_now_separate :
   let w := 60000000000 in let bt := 1699999980000000000 in
   let '(st, outs, p) := arun w [] f9_evs in
   wf w f9_evs = true /\ p = false /\ st = [] /\
-  sident f9_a <> sident f9_b /\ akey f9_a = akey f9_b /\
-  (* 5 recorded under ("ab","c"), 12 reported *)
-  ins_sum_id w (sident f9_a) bt f9_evs = 5 /\ rep_sum_id (sident f9_a) bt outs = 12 /\
-  (* 7 recorded under ("a","bc"), nothing reported, nothing open *)
-  ins_sum_id w (sident f9_b) bt f9_evs = 7 /\ rep_sum_id (sident f9_b) bt outs = 0.
-Proof. vm_compute. repeat split; try reflexivity; discriminate. Qed.
-Print Assumptions C19_identity_collision_refuted.
-
-(* Strongest true restriction: identities occurring in the history have distinct concatenations. *)
-Theorem C19_conservation_partial : forall w evs st outs id bt,
-  collision_freeb evs = true ->
-  arun w [] evs = (st, outs, false) ->
-  rep_sum_id id bt outs + open_sum_id id bt st = ins_sum_id w id bt evs.
-Proof. exact conservation_by_identity. Qed.
-Print Assumptions C19_conservation_partial.
+  akey f9_a = "2:ab1:c5:count5:count"%string /\ akey f9_b = "1:a2:bc5:count5:count"%string /\
+  ins_sum_id w (sident f9_a) bt f9_evs = 5 /\ rep_sum_id (sident f9_a) bt outs = 5 /\
+  ins_sum_id w (sident f9_b) bt f9_evs = 7 /\ rep_sum_id (sident f9_b) bt outs = 7.
+Proof. vm_compute. repeat split; reflexivity. Qed.
 
 (* every recorded stat (one Check each) is inserted exactly once or dropped at its Check, or is the
    one stat still between Check and Insert when the history ends *)
@@ -191,7 +187,7 @@ Definition race_evs : list ev :=
 Example C19_race_second_report :
   let w := 60000000000 in let bt := 1699999980000000000 in
   let '(st, outs, p) := arun w [] race_evs in
-  wf w race_evs = true /\ collision_freeb race_evs = true /\ p = false /\ st = [] /\
+  wf w race_evs = true /\ p = false /\ st = [] /\
   flat_map sent_of outs = [ [race_s 7 bt]; [race_s 5 bt] ] /\
   rep_sum_id (sident (race_s 0 0)) bt outs = 12 /\
   ins_sum_id w (sident (race_s 0 0)) bt race_evs = 12.
